@@ -2245,9 +2245,10 @@ static int _ov_initprime(OggVorbis_File *vf){
     if(vf->ready_state==INITSET)
       if(vorbis_synthesis_pcmout(vd,NULL))break;
 
-    /* suck in another packet */
+    /* suck in another packet; the next audio may well belong to the
+       next link */
     {
-      int ret=_fetch_and_process_packet(vf,NULL,1,0);
+      int ret=_fetch_and_process_packet(vf,NULL,1,1);
       if(ret<0 && ret!=OV_HOLE)return(ret);
     }
   }
